@@ -865,3 +865,187 @@ package ecs
 //@   inv len(w.entities) >= old(len(w.entities)) + int(count) - old(int(w.entityPool.available)) && len(w.entities) >= old(len(w.entities))
 //@   inv int(w.entityPool.available) + int(i) >= old(int(w.entityPool.available)) || w.entityPool.available == 0
 //@   inv len(w.entityPool.entities) <= old(len(w.entities)) + int(i)
+
+// ---------------------------------------------------------------------------------------------
+// C03 — query cursors
+// ---------------------------------------------------------------------------------------------
+// psumF(d, k): number of entities in the first k tables of the filtered/cached table list with backing store d.
+// It is an uninterpreted function; each contract that uses it carries its defining equations as a
+// definitional assumption ("assume"), which is satisfiable for every heap.
+
+//@ uf psumF(d ref, k int) uint32
+//@ uf entAt(a *archetypeAccess, i uint32) Entity
+
+//@ pred psumFDef(q *Query) bool =
+//@   psumF(q.archetypes.data, 0) == 0
+//@   && (forall k int :: {psumF(q.archetypes.data, k + 1)} 0 <= k && k < len(q.archetypes) ==> psumF(q.archetypes.data, k + 1) == psumF(q.archetypes.data, k) + q.archetypes[k].len)
+
+// psum is monotone when no partial sum overflows: a consequence of the defining equations by induction on the
+// distance (not mechanised: stated as an assumption where it is used).
+//@ pred psumFMono(q *Query) bool =
+//@   (forall k int :: {psumF(q.archetypes.data, k)} 0 <= k && k <= len(q.archetypes) ==> psumF(q.archetypes.data, k) < 1073741823)
+//@   && (forall j int, k int :: {psumF(q.archetypes.data, j), psumF(q.archetypes.data, k)} 0 <= j && j <= k && k <= len(q.archetypes) ==> psumF(q.archetypes.data, j) <= psumF(q.archetypes.data, k))
+
+//@ pred listOK(q *Query) bool =
+//@   q.world != nil && (forall k int :: {q.archetypes[k]} 0 <= k && k < len(q.archetypes) ==> q.archetypes[k] != nil)
+
+// position of an open filtered cursor in the global enumeration (-1 before the first Next)
+//@ pred posF(q *Query) int = ite(q.archIndex < 0, -1, int(psumF(q.archetypes.data, int(q.archIndex))) + int(q.entityIndex))
+
+//@ pred curOKF(q *Query) bool =
+//@   q.archIndex >= -1 && int(q.archIndex) < len(q.archetypes)
+//@   && (q.archIndex >= 0 ==> q.archetype == q.archetypes[int(q.archIndex)] && q.access == &q.archetype.archetypeAccess
+//@         && q.archetype.len > 0 && q.entityIndexMax == q.archetype.len - 1 && q.entityIndex <= q.entityIndexMax)
+//@   && (q.archIndex == -1 ==> q.entityIndex == 0 && q.entityIndexMax == 0)
+
+//@ func World.notifyQuery(w, batchArch)
+//@   flag trusted nodirty
+
+//@ func World.closeQuery(w, query)
+//@   props C03 C09
+//@   requires query != nil && lockInv(&w.locks) && validID(query.lockBit)
+//@   panics_if !specBit(w.locks.locks, query.lockBit)
+//@   ensures query.nodeIndex == -2 && query.archIndex == -2
+//@   ensures lockInv(&w.locks) && !specBit(w.locks.locks, query.lockBit)
+//@   ensures forall! b uint8 :: b != query.lockBit ==> specBit(w.locks.locks, b) == old(specBit(w.locks.locks, b))
+//@   modifies query.nodeIndex, query.archIndex, w.locks.locks.bits, *(&w.locks.bitPool)
+
+//@ func archetypeAccess.GetEntity(a, index) (e)
+//@   flag trusted
+//@   ensures e == entAt(a, index)
+
+//@ func Query.nextArchetypeFiltered(q) (ok)
+//@   props C03
+//@   requires listOK(q) && lockInv(&q.world.locks) && validID(q.lockBit) && specBit(q.world.locks.locks, q.lockBit)
+//@   requires q.archIndex >= -1 && int(q.archIndex) < len(q.archetypes)
+//@   assume psumFDef(q)
+//@   ensures ok ==> old(q.archIndex) < q.archIndex && curOKF(q) && q.entityIndex == 0 && q.archIndex >= 0
+//@   ensures ok ==> psumF(q.archetypes.data, int(q.archIndex)) == psumF(q.archetypes.data, int(old(q.archIndex)) + 1)
+//@   ensures ok && old(q.archIndex) >= 0 ==> psumF(q.archetypes.data, int(q.archIndex)) == psumF(q.archetypes.data, int(old(q.archIndex))) + old(q.archetypes[int(q.archIndex)].len)
+//@   ensures ok && old(q.archIndex) == -1 ==> psumF(q.archetypes.data, int(q.archIndex)) == 0
+//@   ensures !ok ==> psumF(q.archetypes.data, len(q.archetypes)) == psumF(q.archetypes.data, int(old(q.archIndex)) + 1)
+//@   ensures !ok && old(q.archIndex) >= 0 ==> psumF(q.archetypes.data, len(q.archetypes)) == psumF(q.archetypes.data, int(old(q.archIndex))) + old(q.archetypes[int(q.archIndex)].len)
+//@   ensures !ok && old(q.archIndex) == -1 ==> psumF(q.archetypes.data, len(q.archetypes)) == 0
+//@   ensures !ok ==> q.archIndex == -2 && !specBit(q.world.locks.locks, q.lockBit)
+//@   ensures ok ==> specBit(q.world.locks.locks, q.lockBit) && lockInv(&q.world.locks)
+//@   modifies q.archIndex, q.nodeIndex, q.access, q.archetype, q.entityIndex, q.entityIndexMax, q.world.locks.locks.bits, *(&q.world.locks.bitPool)
+//@   loop #1
+//@   inv old(q.archIndex) <= q.archIndex && int(q.archIndex) < len(q.archetypes)
+//@   inv psumF(q.archetypes.data, int(q.archIndex) + 1) == psumF(q.archetypes.data, int(old(q.archIndex)) + 1)
+//@   inv q.nodeIndex == old(q.nodeIndex) && q.access == old(q.access) && q.archetype == old(q.archetype) && q.entityIndex == old(q.entityIndex) && q.entityIndexMax == old(q.entityIndexMax)
+
+// The contracts below cover the filtered (cached-filter) strategy: requires q.isFiltered. The same functions run
+// the batch and node-walk strategies on other branches; those branches are excluded here by the precondition.
+
+//@ func Query.nextArchetype(q) (ok)
+//@   props C03
+//@   requires q.isFiltered
+//@   requires listOK(q) && lockInv(&q.world.locks) && validID(q.lockBit) && specBit(q.world.locks.locks, q.lockBit)
+//@   requires q.archIndex >= -1 && int(q.archIndex) < len(q.archetypes)
+//@   assume psumFDef(q)
+//@   ensures ok ==> old(q.archIndex) < q.archIndex && curOKF(q) && q.entityIndex == 0 && q.archIndex >= 0
+//@   ensures ok ==> psumF(q.archetypes.data, int(q.archIndex)) == psumF(q.archetypes.data, int(old(q.archIndex)) + 1)
+//@   ensures ok && old(q.archIndex) >= 0 ==> psumF(q.archetypes.data, int(q.archIndex)) == psumF(q.archetypes.data, int(old(q.archIndex))) + old(q.archetypes[int(q.archIndex)].len)
+//@   ensures ok && old(q.archIndex) == -1 ==> psumF(q.archetypes.data, int(q.archIndex)) == 0
+//@   ensures !ok ==> psumF(q.archetypes.data, len(q.archetypes)) == psumF(q.archetypes.data, int(old(q.archIndex)) + 1)
+//@   ensures !ok && old(q.archIndex) >= 0 ==> psumF(q.archetypes.data, len(q.archetypes)) == psumF(q.archetypes.data, int(old(q.archIndex))) + old(q.archetypes[int(q.archIndex)].len)
+//@   ensures !ok && old(q.archIndex) == -1 ==> psumF(q.archetypes.data, len(q.archetypes)) == 0
+//@   ensures !ok ==> q.archIndex == -2 && !specBit(q.world.locks.locks, q.lockBit)
+//@   ensures ok ==> specBit(q.world.locks.locks, q.lockBit) && lockInv(&q.world.locks)
+//@   modifies q.archIndex, q.nodeIndex, q.access, q.archetype, q.entityIndex, q.entityIndexMax, q.world.locks.locks.bits, *(&q.world.locks.bitPool)
+
+// successor: Next advances the global position by exactly one, or closes the query exactly when the position was the last one
+//@ func Query.Next(q) (ok)
+//@   props C03
+//@   requires q.isFiltered
+//@   requires listOK(q) && curOKF(q) && lockInv(&q.world.locks) && validID(q.lockBit) && specBit(q.world.locks.locks, q.lockBit)
+//@   assume psumFDef(q)
+//@   assume psumFMono(q)
+//@   hint old(q.archIndex) >= 0 ==> psumF(q.archetypes.data, int(old(q.archIndex)) + 1) == psumF(q.archetypes.data, int(old(q.archIndex))) + old(q.archetype.len)
+//@   hint old(q.archIndex) == -1 ==> psumF(q.archetypes.data, int(old(q.archIndex)) + 1) == 0
+//@   ensures ok ==> curOKF(q)
+//@   ensures ok ==> q.archIndex >= 0
+//@   ensures ok && old(q.entityIndex) < old(q.entityIndexMax) ==> posF(q) == old(posF(q)) + 1
+//@   ensures ok && old(q.entityIndex) >= old(q.entityIndexMax) ==> posF(q) == old(posF(q)) + 1
+//@   ensures ok ==> specBit(q.world.locks.locks, q.lockBit) && lockInv(&q.world.locks)
+//@   ensures !ok ==> old(posF(q)) + 1 == int(psumF(q.archetypes.data, len(q.archetypes)))
+//@   ensures !ok ==> q.archIndex == -2 && !specBit(q.world.locks.locks, q.lockBit)
+//@   modifies q.archIndex, q.nodeIndex, q.access, q.archetype, q.entityIndex, q.entityIndexMax, q.world.locks.locks.bits, *(&q.world.locks.bitPool)
+
+//@ func Query.countEntities(q) (n)
+//@   props C03
+//@   requires q.isFiltered && listOK(q)
+//@   assume psumFDef(q)
+//@   ensures n == int(psumF(q.archetypes.data, len(q.archetypes)))
+//@   loop #1
+//@   inv 0 <= i && int(i) <= len(q.archetypes) && count == psumF(q.archetypes.data, int(i))
+
+//@ func Query.Count(q) (n)
+//@   props C03
+//@   requires q.isFiltered && listOK(q)
+//@   requires q.count < 0 || int(q.count) == int(psumF(q.archetypes.data, len(q.archetypes)))
+//@   requires psumF(q.archetypes.data, len(q.archetypes)) < 2147483647
+//@   assume psumFDef(q)
+//@   ensures n == int(psumF(q.archetypes.data, len(q.archetypes)))
+//@   ensures int(q.count) == n
+//@   modifies q.count
+
+//@ func Query.entityAt(q, index) (e)
+//@   props C03 C10
+//@   requires q.isFiltered && listOK(q) && index < 2147483647
+//@   assume psumFDef(q)
+//@   assume psumFMono(q)
+//@   panics_if index < 0
+//@   panics_if index >= int(psumF(q.archetypes.data, len(q.archetypes)))
+//@   flag panic_clean
+//@   ensures exists k int :: 0 <= k && k < len(q.archetypes) && int(psumF(q.archetypes.data, k)) <= index && index < int(psumF(q.archetypes.data, k + 1))
+//@           && e == entAt(&q.archetypes[k].archetypeAccess, uint32(index) - psumF(q.archetypes.data, k))
+//@   loop #1
+//@   inv 0 <= i && int(i) <= len(q.archetypes) && count == psumF(q.archetypes.data, int(i)) && int(count) <= index
+
+//@ func Query.EntityAt(q, index) (e)
+//@   props C03
+//@   requires q.isFiltered && listOK(q) && index < 2147483647
+//@   assume psumFDef(q)
+//@   assume psumFMono(q)
+//@   panics_if index < 0
+//@   panics_if index >= int(psumF(q.archetypes.data, len(q.archetypes)))
+//@   ensures exists k int :: 0 <= k && k < len(q.archetypes) && int(psumF(q.archetypes.data, k)) <= index && index < int(psumF(q.archetypes.data, k + 1))
+//@           && e == entAt(&q.archetypes[k].archetypeAccess, uint32(index) - psumF(q.archetypes.data, k))
+
+//@ func Query.Entity(q) (e)
+//@   props C03
+//@   requires q.access != nil
+//@   ensures e == entAt(q.access, q.entityIndex)
+
+//@ func Query.stepArchetype(q, step) (rest, ok)
+//@   props C03
+//@   requires uint64(q.entityIndex) + uint64(step) < 4294967296
+//@   ensures q.entityIndex == old(q.entityIndex) + step
+//@   ensures ok == (q.entityIndex <= q.entityIndexMax)
+//@   ensures ok ==> rest == 0
+//@   ensures !ok ==> rest == int(q.entityIndex) - int(q.entityIndexMax) - 1
+//@   modifies q.entityIndex
+
+// Step(n) has exactly the effect of n calls of Next (same final position, or exhaustion exactly when fewer than n
+// entities remain). KNOWN FINDING C03-step-truncation: the step is narrowed to uint32.
+//@ func Query.Step(q, n) (ok)
+//@   props C03 C10
+//@   requires q.isFiltered
+//@   requires listOK(q) && curOKF(q) && lockInv(&q.world.locks) && validID(q.lockBit) && specBit(q.world.locks.locks, q.lockBit)
+//@   known C03-step-truncation: requires n < 2147483648
+//@   flag convcheck
+//@   assume psumFDef(q)
+//@   assume psumFMono(q)
+//@   panics_if n <= 0
+//@   flag panic_clean
+//@   ensures ok ==> curOKF(q) && q.archIndex >= 0
+//@   ensures ok ==> posF(q) == old(posF(q)) + n
+//@   ensures ok ==> specBit(q.world.locks.locks, q.lockBit) && lockInv(&q.world.locks)
+//@   ensures !ok ==> old(posF(q)) + n >= int(psumF(q.archetypes.data, len(q.archetypes)))
+//@   ensures !ok ==> q.archIndex == -2 && !specBit(q.world.locks.locks, q.lockBit)
+//@   modifies q.archIndex, q.nodeIndex, q.access, q.archetype, q.entityIndex, q.entityIndexMax, q.world.locks.locks.bits, *(&q.world.locks.bitPool)
+//@   loop #1
+//@   inv curOKF(q) && 1 <= step && step < 2147483648 && posF(q) + step == old(posF(q)) + n
+//@   inv lockInv(&q.world.locks) && specBit(q.world.locks.locks, q.lockBit) && q.lockBit == old(q.lockBit) && q.world == old(q.world) && q.isFiltered
+//@   inv q.archetypes == old(q.archetypes)
